@@ -77,6 +77,9 @@ T = {
             "executable registry model.", "7/C20"),
 }
 
+# checks that are finished (others may exist as files while still under construction)
+READY = ["C03", "C04", "C10", "C14"]
+
 NA = {
     "C16": ("URI <-> option conversion is a pure function of its input: no schedule, clock, fault, crash point or "
             "history exists for a simulator to vary; deciding it would be property-based input generation in "
@@ -86,6 +89,7 @@ NA = {
 
 def main():
     present = sorted(os.path.basename(p)[:-3].upper() for p in glob.glob(os.path.join(VERIF, "checks", "c[0-9][0-9].py")))
+    present = [p for p in present if p in READY]
     props = [json.loads(l)["id"] for l in open(os.path.join(VERIF, "properties.jsonl")) if l.strip()]
     hooks_commits = []
     checks = []
